@@ -266,7 +266,6 @@ def Ext.WF (bodyOk : Nat → Bytes → Bool) : Ext → Prop
       ∧ (match names with | [] => False | n :: _ => validUtf8 n.2 = true)
   | .alpn ps => ps ≠ [] ∧ (∀ p ∈ ps, p.length < 256) ∧ (ps.flatMap vec8).length < 65534
   | .supportedVersions vs => vs ≠ [] ∧ fits 65536 vs ∧ vs.length < 128
-      ∧ bodyOk 43 (vec8 (vs.flatMap e16)) = true
   | .signatureAlgorithms xs => fits 65536 xs ∧ xs.length < 32767
   | .supportedGroups xs => fits 65536 xs ∧ xs.length < 32767
   | .ecPointFormats f => f.length < 256
@@ -296,44 +295,11 @@ def ClientHello.WF (bodyOk : Nat → Bytes → Bool) (ch : ClientHello) : Prop :
 instance (bodyOk : Nat → Bytes → Bool) (ch : ClientHello) : Decidable (ch.WF bodyOk) := by
   unfold ClientHello.WF; exact inferInstance
 
-/-! ### known-finding classes of the unchanged tree -/
+/-! ### known-finding classes of the current tree -/
 end Huginn.Tls.Spec
 
 namespace Huginn.KF.C04
 open Huginn.Tls Huginn.Tls.Spec
-
-/-- supported_versions present and its highest non-GREASE entry is not TLS 1.3: the code reports 1.3
-whenever the extension is present. -/
-def supportedVersionsNot13 (ch : ClientHello) : Prop :=
-  ∃ vs, supportedVersionsOf ch.exts = some vs ∧ versionNumber ch ≠ none ∧ versionNumber ch ≠ some 0x0304
-instance (ch : ClientHello) : Decidable (supportedVersionsNot13 ch) := by
-  unfold supportedVersionsNot13
-  cases h : supportedVersionsOf ch.exts with
-  | none => exact isFalse (by simp)
-  | some vs =>
-    by_cases h2 : versionNumber ch ≠ none ∧ versionNumber ch ≠ some 0x0304
-    · exact isTrue ⟨vs, rfl, h2.1, h2.2⟩
-    · exact isFalse (by rintro ⟨_, _, a, b⟩; exact h2 ⟨a, b⟩)
-
-/-- no supported_versions and a legacy version outside SSL3.0..TLS1.3: the code reports 1.2. -/
-def unknownLegacyVersion (ch : ClientHello) : Prop :=
-  supportedVersionsOf ch.exts = none ∧ ¬ (0x0300 ≤ ch.legacyVersion ∧ ch.legacyVersion ≤ 0x0304)
-    ∧ versionNumber ch ≠ none
-instance (ch : ClientHello) : Decidable (unknownLegacyVersion ch) := by
-  unfold unknownLegacyVersion; exact inferInstance
-
-/-- a part whose list is empty: the code hashes the empty string instead of printing zeros. -/
-def emptyListHash (ch : ClientHello) : Prop :=
-  cipherList ch = [] ∨ extsFor true ch = [] ∨ extsFor false ch = []
-instance (ch : ClientHello) : Decidable (emptyListHash ch) := by
-  unfold emptyListHash; exact inferInstance
-
-/-- an extension whose type satisfies `t & 0x0f0f == 0x0a0a` without being one of the 16 GREASE
-values (e.g. 0x1a2a): tls-parser reports every such type as 0xfafa, the code then drops it as GREASE. -/
-def greaseLikeExtension (ch : ClientHello) : Prop :=
-  ∃ x ∈ ch.exts, greaseLike x.type = true ∧ ¬ IsGrease x.type
-instance (ch : ClientHello) : Decidable (greaseLikeExtension ch) := by
-  unfold greaseLikeExtension; exact inferInstance
 
 /-- first ALPN value with alphanumeric first and last byte that is not valid UTF-8 as a whole: the
 code drops the value (`from_utf8(..).ok()`) and prints `00`. -/
@@ -348,9 +314,8 @@ instance (ch : ClientHello) : Decidable (alpnNotUtf8 ch) := by
     · exact isTrue ⟨p, rfl, h2.1, h2.2⟩
     · exact isFalse (by rintro ⟨q, hq, a, b⟩; cases hq; exact h2 ⟨a, b⟩)
 
-def any (ch : ClientHello) : Prop :=
-  supportedVersionsNot13 ch ∨ unknownLegacyVersion ch ∨ emptyListHash ch ∨ greaseLikeExtension ch
-    ∨ alpnNotUtf8 ch
+/-- the classes still open -/
+def any (ch : ClientHello) : Prop := alpnNotUtf8 ch
 instance (ch : ClientHello) : Decidable (any ch) := by unfold any; exact inferInstance
 
 end Huginn.KF.C04
